@@ -607,7 +607,19 @@ func (env *specEnv) constVal(c *types.Const) SV {
 // local resolves a source-level local variable at env.atBlock.
 func (env *specEnv) local(name string) (SV, bool) {
 	e := env.e
-	cands := e.debugVars[name]
+	// inside a helper that is executed in place, the helper's own variables come first
+	if n := len(e.inlineDebug); n > 0 && env.atInstr && e.curBlock != nil {
+		if cands := e.inlineDebug[n-1][name]; len(cands) > 0 {
+			if sv, ok := env.localAmong(cands, e.curBlock, name); ok {
+				return sv, true
+			}
+		}
+	}
+	return env.localAmong(e.debugVars[name], env.atBlock, name)
+}
+
+func (env *specEnv) localAmong(cands []ssa.Value, atBlock *ssa.BasicBlock, name string) (SV, bool) {
+	e := env.e
 	if len(cands) == 0 {
 		return SV{}, false
 	}
@@ -616,7 +628,7 @@ func (env *specEnv) local(name string) (SV, bool) {
 	// a variable that lives in a cell (captured by a closure or address-taken) always denotes the cell's content
 	for _, c := range cands {
 		if a, ok := c.(*ssa.Alloc); ok && a.Comment == name {
-			if _, defined := e.vals[a]; defined && (env.atBlock == nil || a.Block().Dominates(env.atBlock)) {
+			if _, defined := e.vals[a]; defined && (atBlock == nil || a.Block().Dominates(atBlock)) {
 				elem := a.Type().(*types.Pointer).Elem()
 				l := e.refLoc(e.val(a).T, elem)
 				return SV{T: e.load(env.cur, l), Sort: e.sortOf(elem), GT: elem}, true
@@ -641,16 +653,16 @@ func (env *specEnv) local(name string) (SV, bool) {
 			}
 			continue
 		}
-		if env.atBlock != nil {
-			if phi, ok := c.(*ssa.Phi); ok && phi.Block() == env.atBlock {
+		if atBlock != nil {
+			if phi, ok := c.(*ssa.Phi); ok && phi.Block() == atBlock {
 				best = c
 				bestDepth = 1 << 30
 				continue
 			}
-			if !blk.Dominates(env.atBlock) {
+			if !blk.Dominates(atBlock) {
 				continue
 			}
-			if blk == env.atBlock && !env.atInstr {
+			if blk == atBlock && !env.atInstr {
 				continue
 			}
 		}
